@@ -231,7 +231,7 @@ func init() {
 			}
 		}})
 
-	register(&Rule{ID: "C03.pair.asset", Props: []string{"C03"}, Floor: 6,
+	register(&Rule{ID: "C03.pair.asset", Props: []string{"C03", "C15"}, Floor: 6,
 		Doc: "every change of an asset's share total is paired with the same change of a validator's share of that asset",
 		Run: func(e *Engine, r *RuleRun) {
 			for _, k := range []string{"keeper.Keeper.Delegate", "keeper.Keeper.Undelegate"} {
